@@ -4,6 +4,7 @@
 // reference here is RefMap alone — the same RefMap that c02_main cross-checks against the real
 // std::map on every transition of the same alphabet.
 #include "c02_flat.hpp"
+#include "c02_flat_large.hpp"
 #include <compat/std/map>
 #include <compat/std/set>
 
@@ -14,6 +15,8 @@ namespace
         std::string mn = "compat_std_map" + suffix, sn = "compat_std_set" + suffix;
         mc::add_bfs(mn, [mn] { return std::unique_ptr<mc::Model>(new c02::MapModel<std::map<int, int, Cmp>, c02::NoStdMap, Cmp>(mn, mc::thorough() ? 3 : 2, 3, true)); });
         mc::add_bfs(sn, [sn] { return std::unique_ptr<mc::Model>(new c02::SetModel<std::set<int, Cmp>, c02::NoStdSet, false, Cmp>(sn, mc::thorough() ? 4 : 3)); });
+        mc::add_check(mn + "_large", [mn] { c02::large_map_body<std::map<int, int, Cmp>, c02::NoStdMap, Cmp>(mn); });
+        mc::add_check(sn + "_large", [sn] { c02::large_set_body<std::set<int, Cmp>, c02::NoStdSet, Cmp>(sn); });
     }
 }
 MC_INIT
